@@ -1,7 +1,10 @@
 #!/usr/bin/env python3
 """Runs checks against the seeded changes kept under /verif/seeded/<id>/ (patch.diff, demo, meta.json).
 
-  tools/seedrun.py [--all-checks] [--tier quick|thorough] [name ...]
+  tools/seedrun.py [--all-checks] [--scratch] [--tier quick|thorough] [name ...]
+
+With --scratch the patch is applied to a scratch worktree of /repo HEAD under /tmp (removed afterwards, with the build
+output the checks created for it) and the checks are pointed at it through DX_REPO, so /repo itself is left alone.
 
 For each seeded change: `git -C /repo apply patch.diff`, run the check of the targeted property (or all checks),
 record which checks report a VIOLATION, then `git -C /repo checkout -- .`.  Never commits anything in /repo.
@@ -23,6 +26,7 @@ def sh(cmd, **kw):
 def main():
     args = sys.argv[1:]
     all_checks = "--all-checks" in args
+    scratch = "--scratch" in args
     tier = "quick"
     if "--tier" in args:
         tier = args[args.index("--tier") + 1]
@@ -42,8 +46,15 @@ def main():
         meta = json.load(open(os.path.join(d, "meta.json")))
         target = meta["property"]
         checks = ALL if all_checks else [target]
-        r = sh(["git", "-C", REPO, "apply", os.path.join(d, "patch.diff")])
+        repo = REPO
+        if scratch:
+            repo = f"/tmp/seedrun_{os.getpid()}"
+            sh(["git", "-C", REPO, "worktree", "add", "--detach", repo, "HEAD", "-f"])
+            sh(["cp", os.path.join(REPO, "Cargo.lock"), repo])
+        r = sh(["git", "-C", repo, "apply", os.path.join(d, "patch.diff")])
         if r.returncode != 0:
+            if scratch:
+                sh(["git", "-C", REPO, "worktree", "remove", "--force", repo])
             print(n, "patch does not apply:", r.stderr[:200])
             results.setdefault(n, {})["error"] = "patch does not apply"
             continue
@@ -51,21 +62,30 @@ def main():
         try:
             for c in checks:
                 env = dict(os.environ, VERIF_SEED=os.environ.get("VERIF_SEED", "0"))
+                if scratch:
+                    env["DX_REPO"] = repo
                 p = sh([os.path.join(ROOT, "check"), c, "--tier", tier], cwd=ROOT, env=env)
                 sigs = [l.strip()[len("signature: "):] for l in p.stdout.splitlines() if l.strip().startswith("signature: ")]
                 fired[c] = {"exit": p.returncode, "violations": sum(1 for l in p.stdout.splitlines() if l.startswith("VIOLATION")),
                             "signatures": sigs[:5]}
                 print(f"{n}: {c} exit={p.returncode} violations={fired[c]['violations']} {sigs[:2]}", flush=True)
         finally:
-            sh(["git", "-C", REPO, "checkout", "--", "."])
-            subprocess.run(["rm", "-rf", os.path.join(ROOT, "replays")])
+            if scratch:
+                import hashlib
+                tag = hashlib.sha1(repo.encode()).hexdigest()[:8]
+                sh(["git", "-C", REPO, "worktree", "remove", "--force", repo])
+                subprocess.run(f"rm -rf {ROOT}/.cache/*-{tag}* {ROOT}/.cache/*{tag}.so", shell=True)
+            else:
+                sh(["git", "-C", REPO, "checkout", "--", "."])
+                subprocess.run(["rm", "-rf", os.path.join(ROOT, "replays")])
         e = results.setdefault(n, {"property": target})
         e.setdefault("runs", {}).update({f"{c}:{tier}": v for c, v in fired.items()})
         e["caught_by"] = sorted({k.split(":")[0] for k, v in e["runs"].items() if v["exit"] == 1})
         e["caught_by_target"] = target in e["caught_by"]
         json.dump(results, open(res_path, "w"), indent=1)
-    # rebuild against the clean tree so that caches are warm and nothing from a mutant lingers
-    sh([os.path.join(ROOT, "setup.sh")], cwd=ROOT)
+    if not scratch:
+        # rebuild against the clean tree so that caches are warm and nothing from a mutant lingers
+        sh([os.path.join(ROOT, "setup.sh")], cwd=ROOT)
     miss = [n for n in names if not results.get(n, {}).get("caught_by_target")]
     print("not caught by the target check:", miss)
     return 0
